@@ -356,6 +356,58 @@ fn rejection(ctx: &mut Ctx, n: usize) {
             b.remove();
         }
     }
+    // histories of build-script runs that share an output directory and a file name: whatever an
+    // earlier run left behind, a rejected definition fails and a valid one succeeds
+    let good_text = "interface org.example.hist\nmethod Ping(ping: string) -> (pong: string)\n";
+    let me = std::env::current_exe().ok();
+    for helper in ["cargo_build", "cargo_build_many", "cargo_build_tosource"] {
+        for (hname, history) in [
+            ("bad,bad,bad", vec![false, false, false]),
+            ("good,bad(not newer),bad", vec![true, false, false]),
+            ("bad,good,bad(not newer),good", vec![false, true, false, true]),
+        ] {
+            let Some(me) = &me else { break };
+            let scratch = vl_model::sock::Scratch::new("c09h");
+            let out_dir = scratch.path.join("out");
+            let src_dir = scratch.path.join("src");
+            let _ = std::fs::create_dir_all(&out_dir);
+            let _ = std::fs::create_dir_all(&src_dir);
+            let file = src_dir.join("org.example.hist.varlink");
+            count += 1;
+            ctx.case(Some(hash64(&(helper, hname))));
+            ctx.class("reject-via:build-script-history");
+            let stamp = std::time::SystemTime::now() - std::time::Duration::from_secs(3600);
+            for (k, good) in history.iter().enumerate() {
+                let _ = std::fs::write(&file, if *good { good_text } else { bad_text });
+                if !*good {
+                    // a replaced file need not be newer than what an earlier run wrote (mv, cp -p, git checkout)
+                    if let Ok(f) = std::fs::File::options().write(true).open(&file) {
+                        let _ = f.set_modified(stamp);
+                    }
+                }
+                let out = Command::new(me).args(["buildscript-child", helper]).arg(&out_dir).arg(&file).stdin(Stdio::null()).stdout(Stdio::piped()).stderr(Stdio::piped()).output();
+                let Ok(out) = out else {
+                    ctx.inconclusive("cannot run the build-script child");
+                    break;
+                };
+                let ok = out.status.success();
+                if ok != *good {
+                    let key = if *good { "gen/helper-rejects-valid-in-history" } else { "gen/helper-accepts-invalid" };
+                    ctx.violation(
+                        key,
+                        &format!("{} in one output directory, history [{}]: run #{} ({} definition) exited with {:?}; stderr: {}", helper, hname, k + 1, if *good { "valid" } else { "rejected" }, out.status.code(), String::from_utf8_lossy(&out.stderr).lines().next().unwrap_or("")),
+                        "c09-idl",
+                        json!({"idl": bad_text, "front_end": helper, "history": hname}),
+                    );
+                    break;
+                }
+                if !*good && out.stderr.is_empty() {
+                    ctx.violation("gen/helper-rejects-without-diagnostic", &format!("{} history [{}] run #{}: failed without a diagnostic", helper, hname, k + 1), "c09-idl", json!({"idl": bad_text, "front_end": helper, "history": hname}));
+                    break;
+                }
+            }
+        }
+    }
     ctx.section("rejection_half", json!({"invalid_inputs": count}));
 }
 
